@@ -15,6 +15,8 @@ structure WF (p : Prog) : Prop where
   arg_leaf : ∀ n, p.isArg n = true → p.inputs n = [] ∧ p.subs n = []
   res_lt : ∀ g, ∀ r ∈ p.results g, r < p.nodes.length
   args_arg : ∀ (g : Nat) (pg : PGraph), p.graphs[g]? = some pg → ∀ a, pg.args = some a → ∀ x ∈ a, p.isArg x = true
+  /-- the main graph is not held in an attribute of one of its own nodes -/
+  main_free : ∀ n, (0 : Nat) ∉ p.subs n
 
 theorem Prog.inputs_oob (p : Prog) (n : Nat) (h : p.nodes.length ≤ n) : p.inputs n = [] := by
   simp [Prog.inputs, List.getElem?_eq_none h]
@@ -30,7 +32,7 @@ theorem wf_of_wfb (p : Prog) (h : p.WFb = true) : WF p := by
   simp only [Prog.WFb, Bool.and_eq_true, List.all_eq_true, List.mem_range, decide_eq_true_eq,
     Bool.or_eq_true, Bool.not_eq_eq_eq_not, Bool.not_true] at h
   obtain ⟨hn, hg⟩ := h
-  refine ⟨?_, ?_, ?_, ?_, ?_⟩
+  refine ⟨?_, ?_, ?_, ?_, ?_, ?_⟩
   · intro n i hi
     by_cases hlt : n < p.nodes.length
     · exact (hn n hlt).1.1 i hi
@@ -56,6 +58,11 @@ theorem wf_of_wfb (p : Prog) (h : p.WFb = true) : WF p := by
     rw [ha] at this
     simp only [List.all_eq_true] at this
     exact this x hx
+  · intro n h0
+    by_cases hlt : n < p.nodes.length
+    · have := ((hn n hlt).1.2 0 h0).1.2
+      omega
+    · rw [p.subs_oob n (by omega)] at h0; cases h0
 
 /-! ### rank: both edge relations go strictly down -/
 
